@@ -795,6 +795,11 @@ class Hypergraph:
                     raise XGIError("Invalid ebunch format") from e
                 if None in member_set:
                     raise XGIError("None cannot be a node or edge")
+                # merge the attributes first: a malformed attribute entry must
+                # fail before the edge is stored
+                edge_attr = self._edge_attr_dict_factory()
+                edge_attr.update(attr)
+                edge_attr.update(eattr)
                 self._edge[idx] = member_set
 
                 for n in members:
@@ -803,9 +808,7 @@ class Hypergraph:
                         self._node_attr[n] = self._node_attr_dict_factory()
                     self._node[n].add(idx)
 
-                self._edge_attr[idx] = self._edge_attr_dict_factory()
-                self._edge_attr[idx].update(attr)
-                self._edge_attr[idx].update(eattr)
+                self._edge_attr[idx] = edge_attr
 
                 if format2 or format4:
                     update_uid_counter(self, idx)
